@@ -18,14 +18,42 @@ structure NRet where
   ev : List Event
   res : Res
 
-/-- the logging calls a sink makes, each one a whole handler loop; the first that raises ends `write` -/
-def runInnerN (innerLog : Nat → Reg → NRet) : List Nat → Reg → NRet
+/-- what a sink does with the logger, one call after the other; the first one that raises ends `write` -/
+def runInnerN (act : InnerAct → Reg → NRet) : List InnerAct → Reg → NRet
   | [], reg => ⟨reg, [], .ok⟩
-  | j :: rest, reg =>
-    let r := innerLog j reg
+  | a :: rest, reg =>
+    let r := act a reg
     match r.res with
-    | .ok => let t := runInnerN innerLog rest r.reg; ⟨t.reg, r.ev ++ t.ev, t.res⟩
+    | .ok => let t := runInnerN act rest r.reg; ⟨t.reg, r.ev ++ t.ev, t.res⟩
     | _ => r
+
+/-- `logger.remove(<own id>)` called by the sink of the handler at position `k`: ValueError if it is no longer
+    published; otherwise it is unpublished FIRST (as `Logger.remove` does), then `stop()` runs – on a handler
+    whose sink is running, i.e. whose marker is set -/
+def removeSelfAt (env : Env) (k kk : Nat) (c : Cfg) (reg : Reg) : NRet :=
+  match reg[k]? with
+  | none => ⟨reg, [], .raised .valueError⟩
+  | some (_, s) =>
+    if !s.published then ⟨reg, [], .raised .valueError⟩
+    else
+      let r := stopH env c kk { s with published := false }
+      ⟨reg.set k (c, r.st), r.ev, r.res⟩
+
+/-- `logger.complete()` called by the sink of the handler at position `k`, as far as that handler is concerned:
+    its `tasks_to_complete()` (the `complete_queue()` of the enqueue handlers registered before it only moves
+    forward work that the next `complete()` of the caller does anyway) -/
+def completeSelfAt (k : Nat) (c : Cfg) (reg : Reg) : NRet :=
+  match reg[k]? with
+  | none => ⟨reg, [], .ok⟩
+  | some (_, s) =>
+    let r := tasksLocked s
+    ⟨reg.set k (c, r.st), r.ev, r.res⟩
+
+/-- one use of the logger by the sink of the handler at position `k` -/
+def actAt (env : Env) (innerLog : Nat → Reg → NRet) (k : Nat) (c : Cfg) : InnerAct → Reg → NRet
+  | .log j => innerLog j
+  | .removeSelf kk => removeSelfAt env k kk c
+  | .completeSelf => completeSelfAt k c
 
 /-- the statements under the lock, handler `k` of `reg` being locked (state `s1`) -/
 def lockedBodyAt (env : Env) (innerLog : Nat → Reg → NRet) (k i : Nat) (c : Cfg) (s1 : HState)
@@ -35,7 +63,7 @@ def lockedBodyAt (env : Env) (innerLog : Nat → Reg → NRet) (k i : Nat) (c : 
     let q := queuePut env c i s1
     ⟨reg1.set k (c, q.st), q.ev, q.res⟩
   else
-    let r1 := runInnerN innerLog (env.reenter i c.id) reg1
+    let r1 := runInnerN (actAt env innerLog k c) (env.reenter i c.id) reg1
     match r1.res with
     | .ok =>
       match r1.reg[k]? with
@@ -87,19 +115,27 @@ def emitAt (env : Env) (innerLog : Nat → Reg → NRet) (k i : Nat) (reg : Reg)
       else t
     | _ => t
 
-/-- `for handler in core.handlers.values(): handler.emit(...)` from position `k` on -/
-def loopAt (env : Env) (innerLog : Nat → Reg → NRet) (i : Nat) : Nat → Nat → Reg → NRet
-  | 0, _, reg => ⟨reg, [], .ok⟩
-  | fuel + 1, k, reg =>
+/-- the positions of the handlers that are in `core.handlers` right now (from position `k` on) -/
+def visitFrom (k : Nat) : Reg → List Nat
+  | [] => []
+  | (_, s) :: rest => if s.published then k :: visitFrom (k + 1) rest else visitFrom (k + 1) rest
+
+/-- `for handler in core.handlers.values(): handler.emit(...)`: the dict object read at the start of the loop is
+    iterated to the end, whatever is unpublished meanwhile (copy-on-write registry) -/
+def loopOver (env : Env) (innerLog : Nat → Reg → NRet) (i : Nat) : List Nat → Reg → NRet
+  | [], reg => ⟨reg, [], .ok⟩
+  | k :: ks, reg =>
     let r := emitAt env innerLog k i reg
     match r.res with
-    | .ok => let t := loopAt env innerLog i fuel (k + 1) r.reg; ⟨t.reg, r.ev ++ t.ev, t.res⟩
+    | .ok => let t := loopOver env innerLog i ks r.reg; ⟨t.reg, r.ev ++ t.ev, t.res⟩
     | _ => r
 
-/-- the handler loop with re-entrant sinks nested at most `n` deep -/
+/-- the handler loop with sinks that use the logger nested at most `n` deep -/
 def loopN (env : Env) : Nat → Nat → Reg → NRet
-  | 0, i, reg => loopAt env (fun _ r => ⟨r, [], .ok⟩) i reg.length 0 reg
-  | n + 1, i, reg => loopAt env (fun j r => loopN env n j r) i reg.length 0 reg
+  | 0, i, reg => loopOver env (fun _ r => ⟨r, [], .ok⟩) i (visitFrom 0 reg) reg
+  | n + 1, i, reg => loopOver env (fun j r => loopN env n j r) i (visitFrom 0 reg) reg
+
+def isPublished (p : Cfg × HState) : Bool := p.2.published
 
 def logWN (env : Env) (n i : Nat) (w : World) : WRet :=
   match w.minLevel with
@@ -108,7 +144,10 @@ def logWN (env : Env) (n i : Nat) (w : World) : WRet :=
     if env.level i < m then ⟨w, [], .ok⟩
     else
       let r := loopN env n i w.reg
-      ⟨{ w with reg := r.reg }, r.ev, r.res⟩
+      let live := r.reg.filter isPublished
+      let gone := r.reg.filter (fun p => !isPublished p)
+      ⟨{ reg := live, removed := w.removed ++ gone,
+         minLevel := if gone.isEmpty then w.minLevel else minLevelOf live }, r.ev, r.res⟩
 
 def stepWN (env : Env) (n : Nat) (w : World) : Op → WRet
   | .log i => logWN env n i w
